@@ -195,7 +195,12 @@ impl World {
             return;
         }
         r.evaluated += 1;
-        *r.by_class.entry(class.to_string()).or_default() += 1;
+        match r.by_class.get_mut(class) {
+            Some(n) => *n += 1,
+            None => {
+                r.by_class.insert(class.to_string(), 1);
+            }
+        }
         st.calls += 1;
         let same = |b: &&Res| if cheap && matches!(out.res, Res::Ok(_)) { matches!(b, Res::Ok(_)) } else { b.key() == out.res.key() };
         if !baselines.iter().any(same) {
@@ -214,7 +219,7 @@ impl World {
                 st.panic += 1;
                 // keyed by site AND line: the parent turns the line into the
                 // enclosing item, so that two defects in one file stay apart
-                let f = r.viol.entry(format!("{} @{}", p.site, p.location)).or_insert_with(|| Finding { count: 0, call, entry, message: p.message.clone(), location: p.location.clone() });
+                let f = r.viol.entry(format!("{entry}|{} @{}", p.site, p.location)).or_insert_with(|| Finding { count: 0, call, entry, message: p.message.clone(), location: p.location.clone() });
                 f.count += 1;
             }
             Res::Skip => {}
